@@ -347,7 +347,19 @@ int main() {
       if (p.empty() && !R.errors.empty()) p = "lifetime: " + R.errors[0];
       if (p.empty() && t->size() != m.size() && !lt) p = "size() " + std::to_string(t->size()) + " != pairs " + std::to_string(m.size());
       if (p.empty()) { std::string inv = check_inv(*t); if (inv != "inv ok") p = inv; }
-      // every registered live object must belong to an occupied slot (nothing constructed and forgotten)
+      // every registered live object must belong to an occupied slot (nothing constructed and forgotten): two objects
+      // (key, value) per occupied cell of the current array and of the superseded array while it is allocated
+      if (p.empty()) {
+        size_t cells = 0;
+        auto &cur = Access::buckets(*t);
+        auto &old = Access::old_buckets(*t);
+        for (size_t b = 0; b < cur.size(); ++b) for (size_t s2 = 0; s2 < (size_t)VH_S; ++s2) if (cur[b].occupied(s2)) ++cells;
+        if (!old.is_deallocated())
+          for (size_t b = 0; b < old.size(); ++b) for (size_t s2 = 0; s2 < (size_t)VH_S; ++s2) if (old[b].occupied(s2)) ++cells;
+        if (R.live.size() != 2 * cells)
+          p = "lifetime: " + std::to_string(R.live.size()) + " key/value objects are alive but the table's arrays hold " + std::to_string(cells) +
+              " occupied cells (an object was leaked, i.e. never destroyed, or destroyed while its cell is occupied)";
+      }
       out = p.empty() ? "scan ok n=" + std::to_string(m.size()) + " objs=" + std::to_string(R.live.size()) : "scan BAD " + p;
     }
     else if (w == "sweep" || w == "ltsweep" || w == "ctorsweep") {
